@@ -146,7 +146,7 @@ class CropWrite(CropContract):
             keys = [189, 193][:self.n_arrays]
             rd.fields['stored_header_keys'] = keys
             vh = {}
-            for k in keys:
+            for k in reversed(keys):        # cache filled in another order than the table order (history: C15)
                 f = z3.Function(f'hdr{k}', z3.IntSort(), z3.IntSort())
                 vh[k] = SArray((mul(g.nI, g.nX),), (lambda ff: (lambda idx: O.bounded_i32(c, mk_int(ff(zint(idx[0]))))))(f), 'int32')
             rd.fields['variant_headers'] = vh
